@@ -207,7 +207,7 @@ def hyp_search(ctx, strategy, check, max_examples, label="main", shrink_calls=40
                 holder["post"] = shrink_calls  # every further attempt costs the whole cap: do not shrink
             raise
 
-    phases = [Phase.generate, Phase.shrink]
+    phases = [Phase.generate, Phase.shrink] if shrink_calls > 0 else [Phase.generate]
     test = given(strategy)(wrapped)
     test = settings(
         max_examples=max_examples,
@@ -231,6 +231,13 @@ def hyp_search(ctx, strategy, check, max_examples, label="main", shrink_calls=40
             ctx.stats.violations.append({"signature": v.signature, "detail": dict(v.detail, flaky=str(e)[:600]), "case": holder["case"]})
         else:
             raise HarnessError("flaky: " + str(e)[:300])
+    except Exception as e:
+        # an error inside the property library while it was shrinking (seen: ValueError in its ordering of text
+        # choices): the violation itself was observed by the oracle and is reported un-shrunk
+        v = holder.get("v")
+        if v is None:
+            raise
+        ctx.stats.violations.append({"signature": v.signature, "detail": dict(v.detail, shrinking_aborted=repr(e)[:300]), "case": holder["case"]})
 
 
 def zlib_crc(s):
